@@ -6,10 +6,13 @@ import (
 	"bytes"
 	"encoding/json"
 	"fmt"
+	"io"
+	"net/http"
 	"net/url"
 	"regexp"
 	"sort"
 	"strings"
+	"syscall"
 	"testing"
 
 	"verif/harness/backends"
@@ -283,6 +286,46 @@ func c16CrossServers() (ds []disc) {
 	return nil
 }
 
+// c16Binary: the command line of cmd/gofakes3 says -hostbucketbase "can be passed multiple times, or
+// as a single comma separated list": every base given either way is a base of the running server.
+func c16Binary(args []string, bases []string) (ds []disc) {
+	bin, err := c15Binary()
+	if err != nil {
+		return dsc("inconclusive:build", "%v", err)
+	}
+	srv, err := c15Start(bin, append([]string{"-backend", "memory", "-initialbucket", "bk0"}, args...)...)
+	if err != nil {
+		return dsc("inconclusive:start", "%v", err)
+	}
+	defer srv.kill(syscall.SIGKILL)
+	do := func(method, host, path string, body []byte) (int, string) {
+		rq, err := http.NewRequest(method, srv.base+path, bytes.NewReader(body))
+		if err != nil {
+			return 0, err.Error()
+		}
+		if host != "" {
+			rq.Host = host
+		}
+		resp, err := c15Client.Do(rq)
+		if err != nil {
+			return 0, err.Error()
+		}
+		defer resp.Body.Close()
+		b, _ := io.ReadAll(resp.Body)
+		return resp.StatusCode, string(b)
+	}
+	if st, b := do("PUT", "", "/bk0/dir/obj", []byte("the object")); st != 200 {
+		return dsc("inconclusive:setup", "PUT /bk0/dir/obj answered %d %s", st, b)
+	}
+	wantSt, want := do("GET", "", "/bk0/dir/obj", nil)
+	for _, base := range bases {
+		if st, b := do("GET", "bk0."+base, "/dir/obj", nil); st != wantSt || b != want {
+			ds = append(ds, dsc("cli-host-base", "gofakes3 %s: GET /dir/obj with Host bk0.%s answers %d %q; GET /bk0/dir/obj answers %d %q", strings.Join(args, " "), base, st, trunc([]byte(b), 120), wantSt, want)...)
+		}
+	}
+	return ds
+}
+
 func c16Replay(check string, raw json.RawMessage) ([]disc, error) {
 	var cs c16Case
 	if err := json.Unmarshal(raw, &cs); err != nil {
@@ -290,6 +333,15 @@ func c16Replay(check string, raw json.RawMessage) ([]disc, error) {
 	}
 	if check == "slashes" {
 		return c16Slashes(cs), nil
+	}
+	if check == "binary" {
+		var real []disc
+		for _, d := range c16Binary(strings.Fields(cs.FallbackHost), cs.Bases) {
+			if !strings.HasPrefix(d.Kind, "inconclusive:") {
+				real = append(real, d)
+			}
+		}
+		return real, nil
 	}
 	if check == "cross-servers" {
 		return c16CrossServers(), nil
@@ -439,6 +491,27 @@ func c16Run(t *testing.T, c *evid.Collector) {
 			{Method: "HEAD", Bucket: "bk0", Key: "d/x", Family: "headObject"}, {Method: "GET", Bucket: "bk1", Key: "a", Query: s3x.Q("versionId", "null"), Family: "getVersion"},
 			{Method: "GET", Bucket: "bk0", Key: "a", Query: s3x.Q("uploadId", "1"), Family: "listParts"}, {Method: "GET", Bucket: "bk1", Query: s3x.Q("versions", s3x.Bare), Family: "listVersions"},
 			{Method: "PUT", Bucket: "bk2", Family: "createBucket"}, {Method: "DELETE", Bucket: "bk1", Family: "deleteBucket"}, {Method: "POST", Bucket: "bk0", Key: "up", Query: s3x.Q("uploads", s3x.Bare), Family: "initiate"},
+		}
+		// the real binary: host bases given on the command line in both documented ways
+		for _, v := range [][2][]string{
+			{{"-hostbucketbase", "a.example", "-hostbucketbase", "b.example:9000"}, {"a.example", "b.example:9000"}},
+			{{"-hostbucketbase", "a.example,b.example", "-hostbucketbase", "c.example"}, {"a.example", "b.example", "c.example"}},
+			{{"-hostbucket", "-hostbucketbase", "a.example,b.example"}, {"a.example", "b.example"}},
+		} {
+			// the replay case carries the arguments and the bases in one list (first half / second half
+			// would not fit three-element lists: stored separately below)
+			cs := c16Case{Mode: "bases", Bases: v[1], Base: v[1][0], FallbackHost: strings.Join(v[0], " ")}
+			ds := c16Binary(v[0], v[1])
+			var real []disc
+			for _, d := range ds {
+				if strings.HasPrefix(d.Kind, "inconclusive:") {
+					c.Unjudged(d.Detail)
+					continue
+				}
+				real = append(real, d)
+			}
+			c.Case(evid.FP("binary", strings.Join(v[0], " ")), len(ds) == len(real), func() interface{} { return cs }, "check:binary", "src:fixed")
+			report(c, "binary", real, cs)
 		}
 		{
 			cs := c16Case{Mode: "bases", Bases: []string{"a.example"}, Base: "a.example", FallbackHost: "bk0.b.example"}
